@@ -5,22 +5,22 @@ import importlib
 # property -> list of (module, function name).  A function may serve several properties; its findings and
 # recorded obligations are filtered by property.
 RULES = {
-    "C01": [("sa.rules.b6", "r_C19a_C01"), ("sa.rules.c01", "r_C01ef"), ("sa.rules.c17", "r_C01h"), ("sa.rules.c01", "r_C01i"), ("sa.rules.c22", "r_rule_params_eval"), ("sa.rules.b6", "r_C23")],
+    "C01": [("sa.rules.b6", "r_C19a_C01"), ("sa.rules.c01", "r_C01ef"), ("sa.rules.c17", "r_C01h"), ("sa.rules.c01", "r_C01i"), ("sa.rules.c22", "r_rule_params_eval"), ("sa.rules.b6", "r_C23"), ("sa.rules.c04", "r_C04a"), ("sa.rules.c04", "r_C04num")],
     "C02": [("sa.rules.b6", "r_C02ab"), ("sa.rules.b3", "r_C02cd"), ("sa.rules.b3", "r_C08_C34"), ("sa.rules.c08", "r_C08bc"), ("sa.rules.c01", "r_C01ef")],
     "C03": [("sa.rules.b1", "r_C03a"), ("sa.rules.b6", "r_C03bc"), ("sa.rules.b3", "r_C03de_C11a_C17bc"), ("sa.rules.c03", "r_C03fgh"), ("sa.rules.c03", "r_C03j"), ("sa.rules.c25", "r_C25efg")],
     "C04": [("sa.rules.b2", "r_C04"), ("sa.rules.c04", "r_C04a"), ("sa.rules.c04", "r_C04num"), ("sa.rules.c04", "r_C04defaults"), ("sa.rules.c01", "r_C01ef")],
     "C05": [("sa.rules.b3", "r_C05_C10"), ("sa.rules.c05", "r_C05cde"), ("sa.rules.c14", "r_C14h")],
     "C06": [("sa.rules.b7", "r_origin"), ("sa.rules.cmisc", "r_C06bcd")],
-    "C07": [("sa.rules.b3", "r_C07"), ("sa.rules.b6", "r_C03bc"), ("sa.rules.c03", "r_C03fgh"), ("sa.rules.c05", "r_C07c"), ("sa.rules.c05", "r_none_tests")],
+    "C07": [("sa.rules.b3", "r_C07"), ("sa.rules.b6", "r_C03bc"), ("sa.rules.c03", "r_C03fgh"), ("sa.rules.c05", "r_C07c"), ("sa.rules.c05", "r_none_tests"), ("sa.rules.c01", "r_C01i")],
     "C08": [("sa.rules.b3", "r_C08_C34"), ("sa.rules.b3", "r_C02cd"), ("sa.rules.c08", "r_C08bc")],
     "C09": [("sa.rules.b3", "r_C09"), ("sa.rules.b3", "r_C07"), ("sa.rules.cmisc", "r_C13d_C34f_C09d"), ("sa.rules.c08", "r_C08bc"), ("sa.rules.b3", "r_C08_C34")],
-    "C10": [("sa.rules.b3", "r_C05_C10"), ("sa.rules.c05", "r_none_tests"), ("sa.rules.cmisc", "r_C10e")],
+    "C10": [("sa.rules.b3", "r_C05_C10"), ("sa.rules.c05", "r_none_tests"), ("sa.rules.cmisc", "r_C10e"), ("sa.rules.b6", "r_C03bc"), ("sa.rules.c03", "r_C03fgh")],
     "C11": [("sa.rules.b3", "r_C03de_C11a_C17bc"), ("sa.rules.c11", "r_C11b"), ("sa.rules.c11", "r_C11de"), ("sa.rules.c32", "r_C32c"), ("sa.rules.c05", "r_none_tests")],
     "C12": [("sa.rules.b1", "r_C12a"), ("sa.rules.c12", "r_C12b"), ("sa.rules.c05", "r_C12c"), ("sa.rules.c11", "r_C11de")],
-    "C13": [("sa.rules.b3", "r_C13"), ("sa.rules.cmisc", "r_C13d_C34f_C09d"), ("sa.rules.cmisc", "r_C13e")],
-    "C14": [("sa.rules.b4", "r_ledger"), ("sa.rules.b1", "r_C14c"), ("sa.rules.c14", "r_ledger2"), ("sa.rules.b3", "r_C13"), ("sa.rules.c14", "r_C14h"), ("sa.rules.c14", "r_C14d"), ("sa.rules.c14", "r_C14i")],
-    "C15": [("sa.rules.b4", "r_ledger"), ("sa.rules.c14", "r_ledger2"), ("sa.rules.c14", "r_C14i"), ("sa.rules.c14", "r_C15h")],
-    "C16": [("sa.rules.b3", "r_C16a"), ("sa.rules.c14", "r_ledger2"), ("sa.rules.c16", "r_cachekeys"), ("sa.rules.c16", "r_C16f"), ("sa.rules.c17", "r_C17i"), ("sa.rules.c25", "r_C27d")],
+    "C13": [("sa.rules.b3", "r_C13"), ("sa.rules.cmisc", "r_C13d_C34f_C09d"), ("sa.rules.cmisc", "r_C13e"), ("sa.rules.c04", "r_C04defaults")],
+    "C14": [("sa.rules.b4", "r_ledger"), ("sa.rules.b1", "r_C14c"), ("sa.rules.c14", "r_ledger2"), ("sa.rules.b3", "r_C13"), ("sa.rules.c14", "r_C14h"), ("sa.rules.c14", "r_C14d"), ("sa.rules.c14", "r_C14i"), ("sa.rules.c14", "r_C15h")],
+    "C15": [("sa.rules.b4", "r_ledger"), ("sa.rules.c14", "r_ledger2"), ("sa.rules.c14", "r_C14i"), ("sa.rules.c14", "r_C15h"), ("sa.rules.b3", "r_C16a")],
+    "C16": [("sa.rules.b3", "r_C16a"), ("sa.rules.c14", "r_ledger2"), ("sa.rules.c16", "r_cachekeys"), ("sa.rules.c16", "r_C16f"), ("sa.rules.c17", "r_C17i"), ("sa.rules.c25", "r_C27d"), ("sa.rules.b4", "r_ledger"), ("sa.rules.c14", "r_C14i"), ("sa.rules.c14", "r_C15h"), ("sa.rules.b6", "r_C19a_C01")],
     "C17": [("sa.rules.b3", "r_C03de_C11a_C17bc"), ("sa.rules.b6", "r_C17ad_C22b"), ("sa.rules.c05", "r_none_tests"), ("sa.rules.c17", "r_C17fgh"), ("sa.rules.b4", "r_ledger"), ("sa.rules.c17", "r_C17i")],
     "C18": [("sa.rules.b4", "r_ledger"), ("sa.rules.c14", "r_ledger2")],
     "C19": [("sa.rules.b6", "r_C19a_C01"), ("sa.rules.c16", "r_cachekeys"), ("sa.rules.c22", "r_visitor")],
@@ -46,10 +46,10 @@ ALSO = {
     # reference lists are attribute values too: the order clauses of C08 are clauses of C02 ("never reorder matched values")
     "C02": {"C08": ("C08.a", "C08.b", "C08.c"), "C01": ("C01.e",)},
     # "matching object of the right type": the conformance test textx_isinstance is part of C07's selector
-    "C07": {"C03": ("C03.c", "C03.d", "C03.h")},
+    "C07": {"C01": ("C01.i",), "C03": ("C03.c", "C03.d", "C03.h")},
     # C14: "__init__ ... runs before any object processor" is the ordering clause C13.a; instrumentation/storage clauses of C15
-    "C14": {"C13": ("C13.a",), "C15": ("C15.c", "C15.d", "C15.e", "C15.f")},
-    "C15": {"C14": ("C14.a", "C14.f", "C14.e", "C14.i"), "C18": ("C18.c", "C18.d", "C18.f")},
+    "C14": {"C13": ("C13.a",), "C15": ("C15.h", "C15.c", "C15.d", "C15.e", "C15.f")},
+    "C15": {"C16": ("C16.a",), "C14": ("C14.a", "C14.f", "C14.e", "C14.i"), "C18": ("C18.a", "C18.g", "C18.c", "C18.d", "C18.f")},
     # C09 "a Postponed result is never bound/stored": the builtins fallback clause of C07.b
     "C09": {"C07": ("C07.b",), "C08": ("C08.a", "C08.b")},   # "the result does not depend on the order taken": positional storage of list references
     # "a repeated load of the same file returns the cached model": cleanup of a failed load must not evict finished models
@@ -64,8 +64,14 @@ ALSO = {
     "C04": {"C01": ("C01.g",)},
     # C01.c (rule modifiers on an expression that ignores them) is the whitespace clause of C22 as well
     "C22": {"C01": ("C01.c",)},
-    "C01": {"C23": ("C23.c",)},
+    "C01": {"C04": ("C04.a", "C04.d",), "C23": ("C23.c",)},
     # C23.c (subscripted terminal in the invalid-regex handler) is the node-kind clause C01.f as well
+    # C13 'the object processor registered for a rule': a registration replaces the previous table, never the built-in one (C04.e)
+    "C13": {"C04": ("C04.e",)},
+    # C16 'each load ... equal to a fresh process state, also after failing loads': instrumentation / storage / repository cleanup clauses
+    "C16": {"C01": ("C01.d",), "C15": ("C15.c", "C15.d", "C15.h",), "C14": ("C14.a", "C14.f", "C14.i",)},
+    # C10 'ending in an object of the target type': the conformance test textx_isinstance
+    "C10": {"C03": ("C03.c", "C03.h",)},
 }
 
 # general clause families (sa/rules/gen.py): registered for every property they can attribute a finding to
